@@ -755,4 +755,119 @@ theorem Bay.dirtyPhase_rule (P : Bay → Nat → Prop)
         exact ih b1 (k + 1) b' wf1 (hchan b k c b1 wf hp hc hrun)
           (by rw [hext, List.length_append]; omega) h
 
+
+/-! ### the fuel bounds are sufficient -/
+
+theorem nodup_bounded_length : ∀ (n : Nat) (l : List Nat), l.Nodup → (∀ x ∈ l, x < n) → l.length ≤ n := by
+  intro n
+  induction n with
+  | zero =>
+    intro l _ h
+    cases l with
+    | nil => simp
+    | cons a l => exact absurd (h a (by simp)) (by omega)
+  | succ n ih =>
+    intro l hnd h
+    have h1 : (l.erase n).length ≤ n := by
+      apply ih _ (hnd.erase n)
+      intro x hx
+      rw [hnd.mem_erase_iff] at hx
+      have := h x hx.2
+      omega
+    by_cases hm : n ∈ l
+    · rw [List.length_erase_of_mem hm] at h1; omega
+    · rw [List.erase_of_not_mem hm] at h1; omega
+
+theorem Bay.WF.dirty_lt {b : Bay} (wf : b.WF) {c : Nat} (h : c ∈ b.dirty) : c < b.chans.length := by
+  rcases Nat.lt_or_ge c b.chans.length with hl | hl
+  · exact hl
+  · have := (wf.dirtyIff c).mp h
+    simp [Bay.chan, List.getD_eq_getElem?_getD, List.getElem?_eq_none hl] at this
+
+theorem Bay.WF.dirty_length {b : Bay} (wf : b.WF) : b.dirty.length ≤ b.chans.length :=
+  nodup_bounded_length _ _ wf.dirtyNodup (fun _ h => wf.dirty_lt h)
+
+/-- Beyond the number of callbacks left on the list, fuel does not matter. -/
+theorem Bay.propChan_fuel (c : Nat) : ∀ (f1 f2 : Nat) (b : Bay) (j : Nat), b.WF →
+    (b.cbsOf c).length ≤ f1 + j → (b.cbsOf c).length ≤ f2 + j →
+    b.propChan f1 c j = b.propChan f2 c j := by
+  intro f1
+  induction f1 with
+  | zero =>
+    intro f2 b j wf h1 h2
+    have : (b.cbsOf c)[j]? = none := List.getElem?_eq_none_iff.mpr (by omega)
+    unfold Bay.propChan; simp [this]
+  | succ f1 ih =>
+    intro f2 b j wf h1 h2
+    cases hcb : (b.cbsOf c)[j]? with
+    | none => unfold Bay.propChan; simp [hcb]
+    | some cb =>
+      have hjl : j < (b.cbsOf c).length := (List.getElem?_eq_some_iff.mp hcb).1
+      cases f2 with
+      | zero => omega
+      | succ f2 =>
+        rw [Bay.propChan, Bay.propChan]
+        simp only [hcb]
+        cases hrun : b.runCb cb with
+        | error e => rfl
+        | ok b1 =>
+          simp only
+          have hmem : cb ∈ b.cbsOf c := List.mem_of_getElem? hcb
+          have hfix := Bay.runCb_cbsOf_fixed wf hmem hrun
+          have hidx : (b1.cbsOf c).idxOf cb = j := by
+            rw [hfix, ← (List.getElem?_eq_some_iff.mp hcb).2]
+            exact (wf.cbsNodup c).idxOf_getElem j hjl
+          rw [hidx]
+          exact ih f2 b1 (j + 1) (wf.runCb hrun) (by rw [hfix]; omega) (by rw [hfix]; omega)
+
+theorem Bay.propChan_wf {b b' : Bay} {c fuel j : Nat} (wf : b.WF) (hj : j ≤ (b.cbsOf c).length)
+    (h : b.propChan fuel c j = .ok b') : b'.WF ∧ b'.chans.length = b.chans.length :=
+  let r := Bay.propChan_rule c (fun b1 _ => b1.chans.length = b.chans.length)
+    (by
+      intro b1 j cb b2 wf1 hl _ hrun _
+      cases cb with
+      | muxInput mj i =>
+        obtain ⟨_, _, _, _, hw⟩ := Bay.cbInput_ok hrun
+        rw [Bay.write_length hw]; exact hl
+      | muxSelect mj =>
+        obtain ⟨m', s, _, _, _, _, hw⟩ := Bay.cbSelect_ok hrun
+        rw [Bay.write_length hw, (Bay.reselect_fields b1 mj m' s).1]; exact hl)
+    fuel b j b' wf rfl hj h
+  ⟨r.1, r.2.2⟩
+
+/-- `bay_propagate`'s first loop: fuel beyond the size of the channel table
+    does not matter (the dirty list holds distinct channels). -/
+theorem Bay.dirtyPhase_fuel : ∀ (f1 f2 : Nat) (b : Bay) (k : Nat), b.WF →
+    b.chans.length ≤ f1 + k → b.chans.length ≤ f2 + k →
+    b.dirtyPhase f1 k = b.dirtyPhase f2 k := by
+  intro f1
+  induction f1 with
+  | zero =>
+    intro f2 b k wf h1 h2
+    have hl := wf.dirty_length
+    have : b.dirty[k]? = none := List.getElem?_eq_none_iff.mpr (by omega)
+    unfold Bay.dirtyPhase; simp [this]
+  | succ f1 ih =>
+    intro f2 b k wf h1 h2
+    cases hc : b.dirty[k]? with
+    | none => unfold Bay.dirtyPhase; simp [hc]
+    | some c =>
+      have hkl : k < b.dirty.length := (List.getElem?_eq_some_iff.mp hc).1
+      have hl := wf.dirty_length
+      cases f2 with
+      | zero => omega
+      | succ f2 =>
+        rw [Bay.dirtyPhase, Bay.dirtyPhase]
+        simp only [hc]
+        cases hrun : b.propChan (b.chanFuel c) c 0 with
+        | error e => rfl
+        | ok b1 =>
+          simp only
+          obtain ⟨wf1, hlen⟩ := Bay.propChan_wf wf (Nat.zero_le _) hrun
+          exact ih f2 b1 (k + 1) wf1 (by rw [hlen]; omega) (by rw [hlen]; omega)
+
+/-- The per-channel fuel of `dirtyPhase` is enough for the whole callback list. -/
+theorem Bay.chanFuel_ok (b : Bay) (c : Nat) : (b.cbsOf c).length ≤ b.chanFuel c + 0 := by
+  unfold Bay.chanFuel; omega
+
 end Ovni.Emu
